@@ -201,6 +201,10 @@ func rewriteOwn(st *Store, c cid.Cid, mode string, isRoot bool) (format.Node, er
 		fs := d.Blocksizes[0]
 		d.Filesize = &fs
 	}
+	if mode == "rawroot" && isRoot && len(pn.Links()) > 0 {
+		t := pb.Data_Raw // UnixFS type Raw (0) is a file type too; importers use it for leaves, nothing forbids it on a node with links
+		d.Type = &t
+	}
 	if mode == "nofs" && len(pn.Links()) > 0 {
 		d.Filesize = nil // FileSize is optional: the length is then what the links add up to
 	}
@@ -314,7 +318,7 @@ func wrapOne(st *Store, nd format.Node, total uint64) (format.Node, error) {
 
 func buildFileCase(st *Store, fc *FileCase, content []byte) (cid.Cid, uint64, error) {
 	if fc.Writer == "own-mixed" || fc.Writer == "own-mtime" || fc.Writer == "own-inline" || fc.Writer == "own-nofs" ||
-		fc.Writer == "own-zmid" || fc.Writer == "own-zend" || fc.Writer == "own-zpb" || fc.Writer == "own-zlead" || fc.Writer == "own-wrap1" || fc.Writer == "own-shortfs" {
+		fc.Writer == "own-zmid" || fc.Writer == "own-zend" || fc.Writer == "own-zpb" || fc.Writer == "own-zlead" || fc.Writer == "own-wrap1" || fc.Writer == "own-shortfs" || fc.Writer == "own-rawroot" {
 		c, sz, err := buildOwnFile(st, bytes.NewReader(content), fc.Chunker, fc.W)
 		if err != nil {
 			return c, sz, err
